@@ -302,9 +302,15 @@ def apply(op, w, stats, rngless=None):
             return
         oid, X = w.names[op[2]]
         M = w.objs[oid]['M']
-        rc0 = sys.getrefcount(X)
-        mv = memoryview(X)
-        rc1 = sys.getrefcount(X)
+        gc_was = gc.isenabled()
+        gc.disable()              # an automatic collection between the two readings would change the count for its own reasons
+        try:
+            rc0 = sys.getrefcount(X)
+            mv = memoryview(X)
+            rc1 = sys.getrefcount(X)
+        finally:
+            if gc_was:
+                gc.enable()
         w.views[op[1]] = {'mv': mv, 'oid': oid, 'shape': (M.m, M.n), 'released': False, 'age': 0, 'direct': True}
         if rc1 != rc0 + 1:
             # every export must pin the exporter by one reference of its own, otherwise the buffer of the
@@ -357,11 +363,17 @@ def apply(op, w, stats, rngless=None):
         # nested views keep the exporter alive through their own reference
         owner = [X for (o, X) in w.names.values() if o == v['oid']]
         nested_alive = any(x is not v and not x['released'] and not x.get('direct') and x['oid'] == v['oid'] for x in w.views.values())
-        rc0 = sys.getrefcount(owner[0]) if owner else None
-        v['mv'].release()
+        gc_was = gc.isenabled()
+        gc.disable()
+        try:
+            rc0 = sys.getrefcount(owner[0]) if owner else None
+            v['mv'].release()
+            rc1 = sys.getrefcount(owner[0]) if owner else None
+        finally:
+            if gc_was:
+                gc.enable()
         v['released'] = True
         if owner and v.get('direct') and not nested_alive:
-            rc1 = sys.getrefcount(owner[0])
             if rc1 != rc0 - 1:
                 raise Mismatch('release-refcount', 'releasing a direct export changed the reference count of the matrix by %d instead of -1' % (rc1 - rc0), op='release')
         w.collect()
